@@ -14,7 +14,7 @@ abbrev Table := Array (Nat × Nat)
 @[inline] def Table.at (t : Table) (i : Int) : Nat × Nat := t.getD i.toNat (0, 0)
 
 /-- The `while (max >= min)` loop of `bisearch`.  Every iteration shrinks `max - min`, so
-    `fuel = size` always suffices (`bisearchLoop_fuel`); `none` = out of fuel. -/
+    `fuel = size + 1` always suffices (`bisearchLoop_fuel`); `none` = out of fuel. -/
 def bisearchLoop (t : Table) (ucs : Nat) : Nat → Int → Int → Option Bool
   | 0, _, _ => none
   | fuel + 1, min, max =>
@@ -33,7 +33,7 @@ def bisearch (t : Table) (ucs : Nat) : Bool :=
   else
     let max : Int := (t.size : Int) - 1
     if ucs < (t.at 0).1 ∨ ucs > (t.at max).2 then false
-    else (bisearchLoop t ucs t.size 0 max).getD false
+    else (bisearchLoop t ucs (t.size + 1) 0 max).getD false
 
 /-- The final `return 1 + (ucs >= 0x1100 && (...))` of `mk_wcwidth`. -/
 def isWideRange (ucs : Nat) : Bool :=
